@@ -155,8 +155,10 @@ static std::string cmpd_one(int op, i128 a, i128 b)
   using PS = decltype(std::declval<L>() << std::declval<R>());
   if constexpr (LW == PLAIN || std::is_same_v<L, bool>) return "nc";
   else {
-    constexpr bool ok_arith = LW == TVOL || std::is_same_v<P, L>;
-    constexpr bool ok_shift = LW == TVOL || std::is_same_v<PS, L>;
+    // on a tainted<L> left operand the compound form is `x = x op y`: it exists when the promoted result can be assigned back,
+    // i.e. when it has type L -- or when the library offers a converting assignment (then it must behave like the plain operator)
+    constexpr bool ok_arith = LW == TVOL || std::is_same_v<P, L> || std::is_assignable_v<tainted<L, SbxA>&, tainted<P, SbxA>>;
+    constexpr bool ok_shift = LW == TVOL || std::is_same_v<PS, L> || std::is_assignable_v<tainted<L, SbxA>&, tainted<PS, SbxA>>;
     Holder<L, LW> hl((L)a); Holder<R, RW> hr((R)b);
     auto& x = hl.get(); auto& y = hr.get();
     auto fin = [&](auto& e) { return "ok " + show_val(e) + " " + show_val(x); };
@@ -188,7 +190,7 @@ static std::string incdec_one(const std::string& form, i128 a)
   bool dec = form.find("dec") != std::string::npos;
   if (!defined_bin<L, int>(dec ? 1 : 0, a, 1)) return "undef";
   if constexpr (LW == PLAIN || std::is_same_v<L, bool>) return "nc";
-  else if constexpr (LW == TAINTED && !std::is_same_v<P, L>) return "nc";
+  else if constexpr (LW == TAINTED && !std::is_same_v<P, L> && !std::is_assignable_v<tainted<L, SbxA>&, tainted<P, SbxA>>) return "nc";
   else {
     Holder<L, LW> hl((L)a);
     auto& x = hl.get();
